@@ -487,12 +487,20 @@ pub fn c11_case(rep: &mut Report, seed: u64, idx: u64, script: Option<Vec<u8>>, 
             // ---- successor heard within the slot: no retry, stays in the LAS ----
             4 | 5 => {
                 let other = *rng.pick(&c.env.strangers);
+                // "nothing is heard" is about the bus, not about the successor: a telegram of any
+                // sender ends the supervision (the successor itself, a stranger, an invalid address)
+                let from = match rng.usize(4) {
+                    0 => *rng.pick(&c.env.strangers),
+                    1 => 126,
+                    _ => ns,
+                };
+                c.rep.count(if from == ns { "C11_S2_heard_from_successor" } else if from == 126 { "C11_S2_heard_from_invalid_address" } else { "C11_S2_heard_from_stranger" });
                 let tel = if *dev == 4 {
-                    c.rig.status_request(ns, other)
+                    c.rig.status_request(from, other)
                 } else {
                     RTel::Data {
                         da: other,
-                        sa: ns,
+                        sa: from,
                         dsap: None,
                         ssap: None,
                         fc: RFc::Req { fcv: false, fcb: false, code: crate::refcodec::REQ_SDN_LOW },
@@ -504,12 +512,15 @@ pub fn c11_case(rep: &mut Report, seed: u64, idx: u64, script: Option<Vec<u8>>, 
                 let gap = 34 + rng.below(max_gap_bits - 33);
                 let e = c.rig.env_tel(&tel, gap);
                 // no retry of the pass for (more than) a slot time after that
-                let until = e + cfg.tslot() - cfg.bits(40);
+                // (when it was not the successor who was heard the bus then stays silent: the station
+                // has given the token away and must say nothing before its time-out of at least
+                // six slot times -- in particular not repeat the pass one slot time later)
+                let until = if from == ns { e + cfg.tslot() - cfg.bits(40) } else { e + 2 * cfg.tslot() };
                 match c.rig.station_silent_until(until) {
                     Ok(()) => {}
                     Err(f) => {
                         if is_token(&f, ts, ns) {
-                            c.viol("C11/S2/retry-although-successor-heard", format!("#{} transmitted {}us after the pass (inside the slot time) but the token was sent again", ns, e - t_pass));
+                            c.viol(if from == ns { "C11/S2/retry-although-successor-heard" } else { "C11/S2/retry-although-bus-not-silent" }, format!("#{} transmitted {}us after the pass to #{} (inside the slot time) but the token was sent again", from, e - t_pass, ns));
                         } else {
                             c.viol("C11/S2/unexpected-transmission", format!("{:?}", f.decoded.map(|t| t.short())));
                         }
@@ -521,6 +532,11 @@ pub fn c11_case(rep: &mut Report, seed: u64, idx: u64, script: Option<Vec<u8>>, 
                     return;
                 }
                 c.rep.count("C11_S2_heard_successor_checked");
+                if from != ns {
+                    // nobody holds the token now; the case ends here
+                    c.rep.count("C11_S2_other_sender_heard_checked");
+                    return;
+                }
                 let e = c.env_walk_to_ts(holder);
                 let who = format!("PS #{}", c.env.ps_of_ts(ts));
                 let Some(f) = c.expect_accept(e, "A1", &who) else { return };
